@@ -21,6 +21,7 @@ import (
 	"github.com/MichaelMure/git-bug/bridge/core/auth"
 	"github.com/MichaelMure/git-bug/cache"
 	"github.com/MichaelMure/git-bug/entities/bug"
+	"github.com/MichaelMure/git-bug/entity/dag"
 
 	"verif/harness/hx"
 )
@@ -33,6 +34,7 @@ type event struct {
 	T    int    // logical time
 	Body int    // version of the body (comments)
 	Seq  int    // per-issue sequence (labels alternate add / remove, states close / reopen)
+	Cls  int    // text class of a comment: the comments of a session walk through all of them
 }
 
 type issue struct {
@@ -50,21 +52,34 @@ type round struct {
 }
 
 type tracker struct {
-	mu      sync.Mutex
-	issues  map[int]*issue
-	now     int
-	nextid  int
-	margin  int
-	rounds  []round
-	cur     *round
-	fail    string // request class to fail in the current round
-	drop    bool   // fail by dropping the connection instead of answering 400
-	reqs    []string
-	overlap bool // note / label / state ids come from separate counters (as on a real GitLab)
-	perKind map[string]int
+	mu        sync.Mutex
+	issues    map[int]*issue
+	now       int
+	nextid    int
+	margin    int
+	rounds    []round
+	cur       *round
+	fail      string // request class to fail in the current round
+	drop      bool   // fail by dropping the connection instead of answering 400
+	reqs      []string
+	overlap   bool // note / label / state ids come from separate counters (as on a real GitLab)
+	perKind   map[string]int
+	ncomments int
 }
 
 func texts(class int, what string, v int) string {
+	if what == "comment" {
+		// comments written by people that read like the notes the tracker generates itself (what tells them apart is the
+		// `system` flag, not the text)
+		sys := []string{"closed", "reopened", "changed the description", "assigned to @user2", "changed title from **a** to **b**",
+			"mentioned in issue #2", "changed title from here on", "added ~7 label", "locked this issue"}
+		if k := class % 13; k >= 4 {
+			if v == 0 {
+				return sys[k-4]
+			}
+			return fmt.Sprintf("%s (edited %d times, still no answer)", sys[k-4], v)
+		}
+	}
 	switch class % 4 {
 	case 0:
 		return fmt.Sprintf("%s v%d", what, v)
@@ -185,7 +200,7 @@ func (tr *tracker) serve(w http.ResponseWriter, r *http.Request) {
 			for k, e := range is.Events {
 				switch {
 				case strings.HasPrefix(class, "notes:") && e.Kind == "comment":
-					list = append(list, map[string]interface{}{"id": e.Id, "body": texts(is.Text+e.Id, "comment", e.Body), "author": user(1 + e.Id%2), "system": false, "created_at": ts(e.T), "updated_at": ts(e.T + e.Body), "noteable_iid": iid})
+					list = append(list, map[string]interface{}{"id": e.Id, "body": texts(e.Cls, "comment", e.Body), "author": user(1 + e.Id%2), "system": false, "created_at": ts(e.T), "updated_at": ts(e.T + e.Body), "noteable_iid": iid})
 				case strings.HasPrefix(class, "notes:") && e.Kind == "title":
 					list = append(list, map[string]interface{}{"id": e.Id, "body": fmt.Sprintf("changed title from **%s** to **new title %d**", tr.titleAt(is, k), e.Id), "author": user(1), "system": true, "created_at": ts(e.T), "updated_at": ts(e.T)})
 				case strings.HasPrefix(class, "notes:") && e.Kind == "desc":
@@ -225,16 +240,18 @@ type Schedule struct {
 	Steps   []Step `json:"steps"`
 	Name    string `json:"name"`
 	Overlap bool   `json:"overlap"`
+	Seed    int    `json:"seed"`
 }
 
 type BugObs struct {
-	I      int   `json:"i"`
-	Known  bool  `json:"known"`
-	Ids    []int `json:"ids"`    // gitlab ids carried by the operations, with multiplicity, sorted
-	Nedits int   `json:"nedits"` // edit operations without an id (comment bodies that changed)
-	Nops   int   `json:"nops"`
-	Valid  bool  `json:"valid"`
-	Title  int   `json:"title"` // the title event whose title the bug shows (0: the title the issue was born with, or no bug)
+	I      int      `json:"i"`
+	Known  bool     `json:"known"`
+	Ids    []int    `json:"ids"`    // gitlab ids carried by the operations, with multiplicity, sorted
+	Nedits int      `json:"nedits"` // edit operations without an id (comment bodies that changed)
+	Nops   int      `json:"nops"`
+	Valid  bool     `json:"valid"`
+	Kinds  []string `json:"kinds"` // what kind of operation carries each id (aligned with ids): comment | title | label | state | desc
+	Title  int      `json:"title"` // the title event whose title the bug shows (0: the title the issue was born with, or no bug)
 }
 type Event struct {
 	Ev       string   `json:"ev"`
@@ -253,7 +270,7 @@ type Event struct {
 func observe(rc *cache.RepoCache, nIssue int) ([]BugObs, int) {
 	obs := make([]BugObs, nIssue)
 	for i := range obs {
-		obs[i] = BugObs{I: i + 1, Ids: []int{}, Valid: true}
+		obs[i] = BugObs{I: i + 1, Ids: []int{}, Kinds: []string{}, Valid: true}
 	}
 	n := 0
 	for _, id := range rc.Bugs().AllIds() {
@@ -271,6 +288,7 @@ func observe(rc *cache.RepoCache, nIssue int) ([]BugObs, int) {
 		}
 		o.Known = true
 		o.Nops = len(snap.Operations)
+		kindOf := map[int]string{}
 		if _, err := fmt.Sscanf(snap.Title, "new title %d", &o.Title); err != nil {
 			o.Title = 0
 		}
@@ -281,11 +299,16 @@ func observe(rc *cache.RepoCache, nIssue int) ([]BugObs, int) {
 			if v, ok := op.GetMetadata("gitlab-id"); ok {
 				k, _ := strconv.Atoi(v)
 				o.Ids = append(o.Ids, k)
+				kindOf[k] = map[dag.OperationType]string{bug.AddCommentOp: "comment", bug.SetTitleOp: "title", bug.LabelChangeOp: "label",
+					bug.SetStatusOp: "state", bug.EditCommentOp: "desc"}[op.Type()]
 			} else if op.Type() == bug.EditCommentOp {
 				o.Nedits++
 			}
 		}
 		sort.Ints(o.Ids)
+		for _, k := range o.Ids {
+			o.Kinds = append(o.Kinds, kindOf[k])
+		}
 	}
 	return obs, n
 }
@@ -344,7 +367,12 @@ func runSchedule(s Schedule) []*Event {
 					seq++
 				}
 			}
-			is.Events = append(is.Events, &event{Id: id, Kind: st.Kind, T: tr.now, Seq: seq})
+			cls := 0
+			if st.Kind == "comment" {
+				tr.ncomments++
+				cls = 3 + tr.ncomments + s.Seed%13 // starts among the texts that read like the tracker's own notes
+			}
+			is.Events = append(is.Events, &event{Id: id, Kind: st.Kind, T: tr.now, Seq: seq, Cls: cls})
 			if st.Kind == "desc" {
 				is.DescV++
 			}
